@@ -177,7 +177,7 @@ class Instrument:
         self._patch(A1._PolyHelper, HELPER_CELLS, 'helper')
         self._patch(A2._PolyHelper2D, dict(HELPER_CELLS, **HELPER2D_EXTRA), 'helper')
         self._patch(S1.SplineBasis, {}, 'basis')
-        self._patch(S2.SplineBasis2D, {}, 'basis')
+        self._patch(S2.SplineBasis2D, {'_basis': 'lazyb'}, 'basis')
         for cls in (A1._PolyHelper, A2._PolyHelper2D, S1.SplineBasis, S2.SplineBasis2D):
             self._wrap_init(cls)
         for cls in (A1._Algorithm, A2._Algorithm2D):
@@ -363,7 +363,9 @@ def run_concurrent(targets, jobs, schedule, timeout=STEP_TIMEOUT):
         finally:
             ins.rec.sched = None
         logs = [[] for _ in jobs]
+        full = [[] for _ in jobs]
         for ident, i in sch.idx.items():
-            logs[i] = [e for e in ins.rec.logs.get(ident, []) if e[0] in 'RW']
-        return {'results': results, 'logs': logs, 'executed': list(sch.executed),
+            full[i] = list(ins.rec.logs.get(ident, []))
+            logs[i] = [e for e in full[i] if e[0] in 'RW']
+        return {'results': results, 'logs': logs, 'logs_full': full, 'executed': list(sch.executed),
                 'unmodelled': list(ins.rec.unmodelled)}
